@@ -23,6 +23,7 @@ EXPLANATION = (
     "presentation-related, local-limit-exceeded. Trusted: CPython's threading.enumerate() "
     "(contains every started, not yet finished thread, including the caller)."
     " Fourth session: (population) ApplicationEntity.active_associations is evaluated on live associations in every stage (negotiating, established, releasing, aborted) of this and another AE; the counted list is not edited - directly or through an alias - before it is measured; a population kept in the AE's own bookkeeping instead of threading.enumerate() is a violation."
+    " Fifth round: (limit-outside-counted-thread) the decision to accept or reject for the association limit is taken before the association's thread is counted, not from inside it; count forms `len([..])` and `sum(1 for ..)` are both read; trivial getter properties are expanded."
 )
 
 
